@@ -947,6 +947,17 @@ def special_oracle(spec):
             gterms[k1] = [float(t) for a_ in avec for t in dref[1](a_, vals[k1])]
             call = lambda x: anp.sum(fun(np.array(avec), x[k1]))  # noqa: E731
             spec = dict(spec, _parray=True)
+        if name == 'multigammaln' and int(spec_hash(spec), 16) % 2 == 0:
+            # the argument as an array built from the observable (weighted sum over its elements): every element has its own
+            # d digamma terms (C20-m20)
+            offs, wts = [0.0, 0.7, 1.9], [1.0, -0.5, 2.0]
+            dd = consts[1]
+
+            def base(v):        # noqa: F811
+                return float(sum(w_ * fref(v[0] + o_, dd) for o_, w_ in zip(offs, wts)))
+            gterms = [[w_ * float(t) for o_, w_ in zip(offs, wts) for t in dref[0](vals[0] + o_, dd)]]
+            call = lambda x: anp.sum(anp.array(wts) * fun(anp.array([x[0] + o_ for o_ in offs]), dd))  # noqa: E731
+            spec = dict(spec, _aarray=True)
     g0 = [math.fsum(t) for t in gterms]
     s0 = [math.fsum(abs(x) for x in t) for t in gterms]
     f0 = base(vals)
@@ -969,6 +980,8 @@ def special_oracle(spec):
     labs = {'fn:' + name, 'wrap:' + wrap, 'nobs:%d' % len(obs)} | layout_labels(spec['obs'])
     if spec.get('_parray'):
         labs.add('array_of_shape_parameters')
+    if spec.get('_aarray'):
+        labs.add('array_argument')
     if any(p is None and k == 'x' for p, k in zip(pos, kinds)):
         labs.add('number_in_differentiable_slot')
     return {'nt': fl, 'cls': sorted(labs)}
